@@ -235,6 +235,140 @@ mod v_iface_seq {
         kani::cover!(!got1 && d1 && !d2, "an error quoting another port ignored, the second one delivered");
     }
 
+    // ---- TCP socket in a synchronized / half-open state reached through real frames
+    /// 20-octet TCP header without options
+    fn tcp_header(b: &mut [u8], sport: u16, dport: u16, seq: u32, ack: u32, flags: u8, window: u16) {
+        put16(b, 0, sport);
+        put16(b, 2, dport);
+        put32(b, 4, seq);
+        put32(b, 8, ack);
+        b[12] = 0x50;
+        b[13] = flags;
+        put16(b, 14, window);
+        put16(b, 16, 0);
+        put16(b, 18, 0);
+    }
+
+    /// a segment of 44 octets for the connection `sport` -> `dport` from 192.168.1.2: IPv4 header and ports concrete,
+    /// sequence and acknowledgement numbers, data offset, flags, window, checksum, urgent pointer free, then 4 free octets
+    /// that are options (data offset 6), payload (data offset 5) or make the segment malformed (other data offsets)
+    #[cfg(feature = "proto-ipv4")]
+    fn free_segment(sport: u16, dport: u16) -> [u8; 44] {
+        let mut b: [u8; 44] = kani::any();
+        ipv4_header(&mut b, 44, 6, PEER_U32, OWN_U32);
+        put16(&mut b, 20, sport);
+        put16(&mut b, 22, dport);
+        b
+    }
+
+    // ESTABLISHED through a real handshake (SYN in, the socket's own SYN-ACK out through `dispatch`, ACK in), then two
+    // segments with free TCP headers, then the echo request.
+    // @harness props=C03 cfg=KI4t tier=t to=3600 mem=16 unwind=12 opts=nomem covers=3 funcs=InterfaceInner::process_ip;InterfaceInner::process_ipv4;InterfaceInner::process_tcp;tcp::Socket::accepts;tcp::Socket::process;tcp::Socket::dispatch;TcpRepr::parse;InterfaceInner::process_icmpv4 bounds=raw-IP_medium,_one_TCP_socket_(8-byte_rings)_listening_on_port_80;_prefix:_SYN_from_192.168.1.2:4000_(sequence_number_1000,_window_100,_no_options),_the_socket's_SYN-ACK_taken_from_dispatch,_the_matching_ACK_->_ESTABLISHED;_frames_1_and_2:_44_octets_for_that_connection_with_free_sequence/acknowledgement_numbers,_data_offset,_flags,_window,_checksum,_urgent_pointer_and_4_free_octets_(options_or_payload);_then_the_echo_request;_symbolic_start_time,_no_time_advance
+    #[cfg(all(feature = "proto-ipv4", feature = "medium-ip", feature = "socket-tcp"))]
+    #[kani::proof]
+    pub(crate) fn seq4_tcp_established_two_segments_then_echo() {
+        iface4!(iface);
+        let mut trx = [0u8; 8];
+        let mut ttx = [0u8; 8];
+        let mut tsock = tcp::Socket::new(tcp::SocketBuffer::new(&mut trx[..]), tcp::SocketBuffer::new(&mut ttx[..]));
+        tsock.listen(80).unwrap();
+        let mut storage = [SocketStorage::EMPTY];
+        let mut sockets = SocketSet::new(&mut storage[..]);
+        let th = sockets.add(tsock);
+        // SYN
+        let mut syn = [0u8; 40];
+        ipv4_header(&mut syn, 40, 6, PEER_U32, OWN_U32);
+        tcp_header(&mut syn[20..], 4000, 80, 1000, 0, 0x02, 100);
+        let r = iface.inner.process_ip(&mut sockets, PacketMeta::default(), &syn[..], &mut iface.fragments).is_some();
+        crate::vassert!(!r && sockets.get::<tcp::Socket>(th).state() == tcp::State::SynReceived, "prop:c03_syn_taken_by_the_listener");
+        // the socket's SYN-ACK
+        let mut synack_seq: u32 = 0;
+        let mut synack_ok = false;
+        let _ = sockets.get_mut::<tcp::Socket>(th).dispatch(&mut iface.inner, |_cx, (_ip, t)| -> core::result::Result<(), ()> {
+            synack_seq = t.seq_number.0 as u32;
+            synack_ok = t.control == TcpControl::Syn && t.ack_number == Some(TcpSeqNumber(1001));
+            Ok(())
+        });
+        crate::vassert!(synack_ok, "prop:c03_syn_ack_sent");
+        // ACK
+        let mut ack = [0u8; 40];
+        ipv4_header(&mut ack, 40, 6, PEER_U32, OWN_U32);
+        tcp_header(&mut ack[20..], 4000, 80, 1001, synack_seq.wrapping_add(1), 0x10, 100);
+        let r = iface.inner.process_ip(&mut sockets, PacketMeta::default(), &ack[..], &mut iface.fragments).is_some();
+        crate::vassert!(!r && sockets.get::<tcp::Socket>(th).state() == tcp::State::Established, "prop:c03_handshake_completes");
+        // two free segments
+        let a = free_segment(4000, 80);
+        let _ = iface.inner.process_ip(&mut sockets, PacketMeta::default(), &a[..], &mut iface.fragments);
+        let st1 = sockets.get::<tcp::Socket>(th).state();
+        let got1 = sockets.get::<tcp::Socket>(th).can_recv();
+        let b = free_segment(4000, 80);
+        let _ = iface.inner.process_ip(&mut sockets, PacketMeta::default(), &b[..], &mut iface.fragments);
+        let st2 = sockets.get::<tcp::Socket>(th).state();
+        let n2 = sockets.get::<tcp::Socket>(th).recv_queue();
+        crate::vassert!(echo_answered(&mut iface, &mut sockets), "prop:c03_echo_request_answered_after_arbitrary_frames");
+        kani::cover!(st1 == tcp::State::Established && st2 == tcp::State::Established && n2 == 8, "both segments carried data that was accepted: receive buffer full");
+        kani::cover!(st1 == tcp::State::CloseWait && got1 && st2 == tcp::State::Closed, "data + FIN, then a reset");
+        kani::cover!(st1 == tcp::State::Established && a[32] == 0x60 && st2 == tcp::State::CloseWait, "a segment with 4 option octets accepted, then a FIN");
+    }
+
+    /// SYN-SENT (connect() called and the SYN emitted through `dispatch`), then two segments for the connection, then the
+    /// echo request.  `flags1` / `flags2`: Some(f) = the segment has no options (data offset 5, 4 payload octets) and
+    /// these flags; None = data offset and flags free.
+    #[cfg(all(feature = "proto-ipv4", feature = "medium-ip", feature = "socket-tcp"))]
+    fn syn_sent_case(flags1: Option<u8>, flags2: Option<u8>) {
+        iface4!(iface);
+        let mut trx = [0u8; 8];
+        let mut ttx = [0u8; 8];
+        let mut tsock = tcp::Socket::new(tcp::SocketBuffer::new(&mut trx[..]), tcp::SocketBuffer::new(&mut ttx[..]));
+        tsock.connect(&mut iface.inner, (IpAddress::Ipv4(Ipv4Address::from_bits(PEER_U32)), 80), 49152).unwrap();
+        let mut storage = [SocketStorage::EMPTY];
+        let mut sockets = SocketSet::new(&mut storage[..]);
+        let th = sockets.add(tsock);
+        let mut syn_seq: u32 = 0;
+        let mut syn_ok = false;
+        let _ = sockets.get_mut::<tcp::Socket>(th).dispatch(&mut iface.inner, |_cx, (_ip, t)| -> core::result::Result<(), ()> {
+            syn_seq = t.seq_number.0 as u32;
+            syn_ok = t.control == TcpControl::Syn && t.ack_number.is_none();
+            Ok(())
+        });
+        crate::vassert!(syn_ok && sockets.get::<tcp::Socket>(th).state() == tcp::State::SynSent, "prop:c03_syn_sent");
+        let mut a = free_segment(80, 49152);
+        if let Some(f) = flags1 {
+            a[32] = 0x50;
+            a[33] = f;
+        }
+        let r1 = iface.inner.process_ip(&mut sockets, PacketMeta::default(), &a[..], &mut iface.fragments).is_some();
+        let st1 = sockets.get::<tcp::Socket>(th).state();
+        let mut b = free_segment(80, 49152);
+        if let Some(f) = flags2 {
+            b[32] = 0x50;
+            b[33] = f;
+        }
+        let r2 = iface.inner.process_ip(&mut sockets, PacketMeta::default(), &b[..], &mut iface.fragments).is_some();
+        let st2 = sockets.get::<tcp::Socket>(th).state();
+        let n2 = sockets.get::<tcp::Socket>(th).recv_queue();
+        crate::vassert!(echo_answered(&mut iface, &mut sockets), "prop:c03_echo_request_answered_after_arbitrary_frames");
+        let ack1 = u32::from_be_bytes([a[28], a[29], a[30], a[31]]);
+        kani::cover!(st1 == tcp::State::Established && ack1 == syn_seq.wrapping_add(1) && st2 == tcp::State::Established && n2 == 4, "SYN-ACK completed the connection, then 4 data octets accepted");
+        // (covers unconditional: a cover in the branch a harness does not take would be reported unsatisfiable)
+        kani::cover!(if flags1.is_none() { st1 == tcp::State::SynSent && r1 } else { st1 == tcp::State::Established && st2 == tcp::State::Closed }, "free first segment: unacceptable ACK answered with a reset / SYN-ACK first: connection completed, then reset");
+        kani::cover!(if flags1.is_none() { st1 == tcp::State::SynReceived } else { st1 == tcp::State::Established && st2 == tcp::State::CloseWait }, "free first segment: simultaneous open, bare SYN took the socket to SYN-RECEIVED / SYN-ACK first: connection completed, then closed by the peer");
+    }
+
+    // @harness props=C03 cfg=KI4t tier=q to=1800 mem=16 unwind=12 opts=nomem covers=3 funcs=InterfaceInner::process_ip;InterfaceInner::process_ipv4;InterfaceInner::process_tcp;tcp::Socket::connect;tcp::Socket::accepts;tcp::Socket::process;tcp::Socket::dispatch;TcpRepr::parse;InterfaceInner::process_icmpv4 bounds=raw-IP_medium,_one_TCP_socket_(8-byte_rings);_prefix:_connect()_to_192.168.1.2:80_from_port_49152,_SYN_taken_from_dispatch_->_SYN-SENT;_frame_1:_44_octets_for_that_connection_with_free_sequence/acknowledgement_numbers,_data_offset,_flags,_window,_checksum,_urgent_pointer_and_4_free_octets_(options_or_payload);_frame_2:_ACK_segment_without_options:_free_sequence/acknowledgement_numbers,_window_and_4_payload_octets;_then_the_echo_request;_symbolic_start_time,_no_time_advance
+    #[cfg(all(feature = "proto-ipv4", feature = "medium-ip", feature = "socket-tcp"))]
+    #[kani::proof]
+    pub(crate) fn seq4_tcp_syn_sent_free_then_ack_then_echo() {
+        syn_sent_case(None, Some(0x10));
+    }
+
+    // @harness props=C03 cfg=KI4t tier=t to=1800 mem=16 unwind=12 opts=nomem covers=3 funcs=InterfaceInner::process_ip;InterfaceInner::process_ipv4;InterfaceInner::process_tcp;tcp::Socket::connect;tcp::Socket::accepts;tcp::Socket::process;tcp::Socket::dispatch;TcpRepr::parse;InterfaceInner::process_icmpv4 bounds=raw-IP_medium,_one_TCP_socket_(8-byte_rings);_prefix:_connect()_to_192.168.1.2:80_from_port_49152,_SYN_taken_from_dispatch_->_SYN-SENT;_frame_1:_SYN-ACK_without_options:_free_sequence/acknowledgement_numbers,_window_and_4_payload_octets;_frame_2:_44_octets_for_that_connection_with_free_sequence/acknowledgement_numbers,_data_offset,_flags,_window,_checksum,_urgent_pointer_and_4_free_octets_(options_or_payload);_then_the_echo_request;_symbolic_start_time,_no_time_advance
+    #[cfg(all(feature = "proto-ipv4", feature = "medium-ip", feature = "socket-tcp"))]
+    #[kani::proof]
+    pub(crate) fn seq4_tcp_syn_sent_synack_then_free_then_echo() {
+        syn_sent_case(Some(0x12), None);
+    }
+
     // ------------------------------------------------------------------ IPv4, Ethernet medium (KE4u)
     #[cfg(feature = "medium-ethernet")]
     const OWN_MAC: [u8; 6] = [0x02, 0, 0, 0, 0, 1];
@@ -290,18 +424,27 @@ mod v_iface_seq {
     }
 
     /// Ethernet interface 02:00:00:00:00:01 / 192.168.1.1/24 at a concrete instant, one bound UDP socket; the neighbor
-    /// cache (3 entries in this build) starts with `prefill` entries for 192.168.1.10, .11 (concrete, older than anything
+    /// cache (6 entries in this build) starts with `prefill` concrete entries for 192.168.1.10.. (older than anything
     /// learned later).
-    /// Frame 1: well-formed ARP request from 192.168.1.2 / 02:00:00:00:00:02 for the own address -> ARP reply (the peer
-    ///          is resolved first: a second cache fill AFTER the free ARP frame - symbolic cache contents and length -
-    ///          took the formula from 0.24 M to 0.89 M steps and out of 12 GB before the echo reply was even dispatched);
-    /// frame 2: ARP packet, all 28 octets free, to the broadcast or the own hardware address, from any source address;
-    /// frame 3: IPv4 packet to the own address (header concrete but for protocol and source address), 12 free octets;
-    /// frame 4: echo request from the peer -> echo reply handed to the device through the real dispatch_ip, addressed to
-    ///          the hardware address the cache holds for the peer: 02:00:00:00:00:02, unless frame 2 was a valid ARP
-    ///          packet that claimed 192.168.1.2 for another hardware address.
+    /// Frame P (if `peer_first`): well-formed ARP request from 192.168.1.2 / 02:00:00:00:00:02 for the own address ->
+    ///          ARP reply; the requester is learned.
+    /// Frame A: ARP packet, all 28 octets free, to the broadcast or the own hardware address, from any source address.
+    /// Frame I (if `with_ip`): IPv4 packet to the own address (header concrete but for protocol and source address), 12
+    ///          free upper-layer octets, from any source hardware address.
+    /// Frame E: echo request from 192.168.1.2 -> echo reply, handed to the real dispatch_ip with a capturing token: it
+    ///          goes to the hardware address the cache holds for 192.168.1.2 (02:..:02 if learned from frame P, unless
+    ///          frame A was a valid ARP packet claiming 192.168.1.2 for another address), or, if the cache holds none, an
+    ///          ARP request for 192.168.1.2 is broadcast instead.
+    ///
+    /// Measured limits (12 GB): what follows a cache fill on a NON-EMPTY cache loses every constant of the `Interface`
+    /// object (heapless `LinearMap::insert` reaches `mem::swap` through a pointer chosen by the key search; CBMC turns the
+    /// untyped 8-byte chunk copies into updates of the whole enclosing object).  After that the echo request and its
+    /// dispatch fit (1.3 M steps, 17 M clauses), a free IPv4 frame in between does not (2.5 M steps; without the dispatch
+    /// 1.4 M steps / 28 M clauses, out of memory), and neither does a second fill (frames A, P in that order: 0.9 M steps,
+    /// out of memory before the dispatch).  Hence two shapes: P A E (requester resolved, reply to the right address) and
+    /// A I E on an initially empty cache (requester unresolved unless frame A claimed its address).
     #[cfg(all(feature = "proto-ipv4", feature = "medium-ethernet", feature = "socket-udp", not(feature = "medium-ip")))]
-    fn eth_seq_case(prefill: usize, mode: u8) {
+    fn eth_seq_case(prefill: usize, peer_first: bool, with_ip: bool, dispatch: bool) {
         let mut dev = CapDev::<64>::new(Medium::Ethernet, 1514, ChecksumCapabilities::ignored());
         let now: i64 = 100_000_000;
         let t0 = Instant::from_micros(now);
@@ -319,140 +462,575 @@ mod v_iface_seq {
         let mut sockets = SocketSet::new(&mut storage[..]);
         let uh = sockets.add(usock);
         let k10 = IpAddress::Ipv4(Ipv4Address::new(192, 168, 1, 10));
-        let k11 = IpAddress::Ipv4(Ipv4Address::new(192, 168, 1, 11));
         let peer = IpAddress::Ipv4(Ipv4Address::from_bits(PEER_U32));
-        if prefill == 7 {
+        if prefill == 5 {
             iface.inner.neighbor_cache.fill_with_expiration(k10, HardwareAddress::Ethernet(EthernetAddress([0x02, 0, 0, 0, 0, 0x10])), Instant::from_micros(now + 10_000_000));
-            iface.inner.neighbor_cache.fill_with_expiration(k11, HardwareAddress::Ethernet(EthernetAddress([0x02, 0, 0, 0, 0, 0x11])), Instant::from_micros(now + 20_000_000));
+            iface.inner.neighbor_cache.fill_with_expiration(IpAddress::Ipv4(Ipv4Address::new(192, 168, 1, 11)), HardwareAddress::Ethernet(EthernetAddress([0x02, 0, 0, 0, 0, 0x11])), Instant::from_micros(now + 20_000_000));
             iface.inner.neighbor_cache.fill_with_expiration(IpAddress::Ipv4(Ipv4Address::new(192, 168, 1, 12)), HardwareAddress::Ethernet(EthernetAddress([0x02, 0, 0, 0, 0, 0x12])), Instant::from_micros(now + 21_000_000));
             iface.inner.neighbor_cache.fill_with_expiration(IpAddress::Ipv4(Ipv4Address::new(192, 168, 1, 13)), HardwareAddress::Ethernet(EthernetAddress([0x02, 0, 0, 0, 0, 0x13])), Instant::from_micros(now + 22_000_000));
             iface.inner.neighbor_cache.fill_with_expiration(IpAddress::Ipv4(Ipv4Address::new(192, 168, 1, 14)), HardwareAddress::Ethernet(EthernetAddress([0x02, 0, 0, 0, 0, 0x14])), Instant::from_micros(now + 23_000_000));
-            iface.inner.neighbor_cache.fill_with_expiration(IpAddress::Ipv4(Ipv4Address::new(192, 168, 1, 15)), HardwareAddress::Ethernet(EthernetAddress([0x02, 0, 0, 0, 0, 0x15])), Instant::from_micros(now + 24_000_000));
-            iface.inner.neighbor_cache.fill_with_expiration(IpAddress::Ipv4(Ipv4Address::new(192, 168, 1, 16)), HardwareAddress::Ethernet(EthernetAddress([0x02, 0, 0, 0, 0, 0x16])), Instant::from_micros(now + 25_000_000));
         }
 
-        // frame 1: the peer asks for our hardware address
-        let mut f1 = [0u8; 42];
-        eth_header(&mut f1, &[0xff; 6], &PEER_MAC, 0x0806);
-        put16(&mut f1, 14, 1);
-        put16(&mut f1, 16, 0x0800);
-        f1[18] = 6;
-        f1[19] = 4;
-        put16(&mut f1, 20, 1);
-        f1[22..28].copy_from_slice(&PEER_MAC);
-        put32(&mut f1, 28, PEER_U32);
-        put32(&mut f1, 38, OWN_U32);
-        let r1 = iface.inner.process_ethernet(&mut sockets, PacketMeta::default(), &f1[..], &mut iface.fragments);
-        let arp_ok = match r1 {
-            Some(EthernetPacket::Arp(ArpRepr::EthernetIpv4 { operation, source_hardware_addr, source_protocol_addr, target_hardware_addr, target_protocol_addr })) => {
-                operation == ArpOperation::Reply
-                    && source_hardware_addr == EthernetAddress(OWN_MAC)
-                    && source_protocol_addr == OWN
-                    && target_hardware_addr == EthernetAddress(PEER_MAC)
-                    && target_protocol_addr == Ipv4Address::from_bits(PEER_U32)
-            }
-            _ => false,
-        };
-        crate::vassert!(arp_ok, "prop:c03_arp_request_answered");
+        // frame P: the peer asks for our hardware address
+        if peer_first {
+            let mut fp = [0u8; 42];
+            eth_header(&mut fp, &[0xff; 6], &PEER_MAC, 0x0806);
+            put16(&mut fp, 14, 1);
+            put16(&mut fp, 16, 0x0800);
+            fp[18] = 6;
+            fp[19] = 4;
+            put16(&mut fp, 20, 1);
+            fp[22..28].copy_from_slice(&PEER_MAC);
+            put32(&mut fp, 28, PEER_U32);
+            put32(&mut fp, 38, OWN_U32);
+            let rp = iface.inner.process_ethernet(&mut sockets, PacketMeta::default(), &fp[..], &mut iface.fragments);
+            let arp_ok = match rp {
+                Some(EthernetPacket::Arp(ArpRepr::EthernetIpv4 { operation, source_hardware_addr, source_protocol_addr, target_hardware_addr, target_protocol_addr })) => {
+                    operation == ArpOperation::Reply
+                        && source_hardware_addr == EthernetAddress(OWN_MAC)
+                        && source_protocol_addr == OWN
+                        && target_hardware_addr == EthernetAddress(PEER_MAC)
+                        && target_protocol_addr == Ipv4Address::from_bits(PEER_U32)
+                }
+                _ => false,
+            };
+            crate::vassert!(arp_ok, "prop:c03_arp_request_answered");
+        }
 
-        // frame 2: free ARP packet
-        let mut f2 = [0u8; 42];
-        let smac2: [u8; 6] = kani::any();
+        // frame A: free ARP packet
+        let mut fa = [0u8; 42];
+        let smac_a: [u8; 6] = kani::any();
         let to_bcast: bool = kani::any();
-        eth_header(&mut f2, if to_bcast { &[0xff; 6] } else { &OWN_MAC }, &smac2, 0x0806);
+        eth_header(&mut fa, if to_bcast { &[0xff; 6] } else { &OWN_MAC }, &smac_a, 0x0806);
         let arp: [u8; 28] = kani::any();
-        f2[14..].copy_from_slice(&arp);
-        let mut r2_arp = false;
-        if mode & 4 != 0 {
-            let r2 = iface.inner.process_ethernet(&mut sockets, PacketMeta::default(), &f2[..], &mut iface.fragments);
-            r2_arp = matches!(r2, Some(EthernetPacket::Arp(_)));
-            crate::vassert!(r2.is_none() || r2_arp, "prop:c03_arp_answered_by_arp_only");
-        }
+        fa[14..].copy_from_slice(&arp);
+        let ra = iface.inner.process_ethernet(&mut sockets, PacketMeta::default(), &fa[..], &mut iface.fragments);
+        let ra_arp = matches!(ra, Some(EthernetPacket::Arp(_)));
+        crate::vassert!(ra.is_none() || ra_arp, "prop:c03_arp_answered_by_arp_only");
         let claims_peer = arp[14] == 192 && arp[15] == 168 && arp[16] == 1 && arp[17] == 2;
-        let evicted = prefill == 7 && !iface.inner.neighbor_cache.lookup(&k10, t0).found();
+        let evicted = prefill == 5 && !iface.inner.neighbor_cache.lookup(&k10, t0).found();
 
-        // frame 3: IPv4 packet for the own address, any protocol, any source, free upper-layer octets
-        let mut f3: [u8; 46] = kani::any();
-        let smac3: [u8; 6] = kani::any();
-        eth_header(&mut f3, &OWN_MAC, &smac3, 0x0800);
-        let proto: u8 = if mode & 8 != 0 { kani::any() } else { 17 };
-        ipv4_header(&mut f3[14..], 32, proto, kani::any(), OWN_U32);
-        let mut r3_some = false;
-        if mode & 1 != 0 {
-            let r3 = iface.inner.process_ethernet(&mut sockets, PacketMeta::default(), &f3[..], &mut iface.fragments);
-            r3_some = r3.is_some();
-            crate::vassert!(!matches!(r3, Some(EthernetPacket::Arp(_))), "prop:c03_ip_not_answered_by_arp");
+        // frame I: IPv4 packet for the own address, any protocol, any source, free upper-layer octets
+        let mut ri_some = false;
+        let mut proto: u8 = 0;
+        if with_ip {
+            let mut fi: [u8; 46] = kani::any();
+            let smac_i: [u8; 6] = kani::any();
+            eth_header(&mut fi, &OWN_MAC, &smac_i, 0x0800);
+            proto = kani::any();
+            ipv4_header(&mut fi[14..], 32, proto, kani::any(), OWN_U32);
+            let ri = iface.inner.process_ethernet(&mut sockets, PacketMeta::default(), &fi[..], &mut iface.fragments);
+            ri_some = ri.is_some();
+            crate::vassert!(!matches!(ri, Some(EthernetPacket::Arp(_))), "prop:c03_ip_not_answered_by_arp");
         }
-        let got3 = sockets.get::<udp::Socket>(uh).can_recv();
+        let got_i = sockets.get::<udp::Socket>(uh).can_recv();
 
         // the hardware address the cache now holds for the peer
         let peer_hw = match iface.inner.neighbor_cache.lookup(&peer, t0) {
             NeighborAnswer::Found(HardwareAddress::Ethernet(a)) => Some(a.0),
             _ => None,
         };
-        crate::vassert!(peer_hw.is_some(), "prop:c03_resolved_neighbor_still_resolved_after_arbitrary_frames");
-        crate::vassert!(claims_peer || peer_hw == Some(PEER_MAC), "prop:c03_neighbor_entry_unchanged_by_frames_not_claiming_its_address");
+        if peer_first {
+            crate::vassert!(peer_hw.is_some(), "prop:c03_resolved_neighbor_still_resolved_after_arbitrary_frames");
+            crate::vassert!(claims_peer || peer_hw == Some(PEER_MAC), "prop:c03_neighbor_entry_unchanged_by_frames_not_claiming_its_address");
+        } else {
+            crate::vassert!(claims_peer || peer_hw.is_none(), "prop:c03_neighbor_entry_unchanged_by_frames_not_claiming_its_address");
+        }
 
-        // frame 4: echo request from the peer; the reply goes through the real dispatch to the (capturing) device token
-        let mut f4 = [0u8; 46];
-        eth_header(&mut f4, &OWN_MAC, &PEER_MAC, 0x0800);
-        ipv4_header(&mut f4[14..], 32, 1, PEER_U32, OWN_U32);
-        f4[34] = 8;
+        // frame E: echo request from the peer; the reply goes through the real dispatch to the (capturing) device token
+        let mut fe = [0u8; 46];
+        eth_header(&mut fe, &OWN_MAC, &PEER_MAC, 0x0800);
+        ipv4_header(&mut fe[14..], 32, 1, PEER_U32, OWN_U32);
+        fe[34] = 8;
         let ident: u16 = kani::any();
         let seq: u16 = kani::any();
-        put16(&mut f4, 38, ident);
-        put16(&mut f4, 40, seq);
-        let r4 = iface.inner.process_ethernet(&mut sockets, PacketMeta::default(), &f4[..], &mut iface.fragments);
+        put16(&mut fe, 38, ident);
+        put16(&mut fe, 40, seq);
+        let re = iface.inner.process_ethernet(&mut sockets, PacketMeta::default(), &fe[..], &mut iface.fragments);
         let mut echo_ok = false;
         let mut sent_ok = false;
-        if let Some(EthernetPacket::Ip(p)) = r4 {
+        if let Some(EthernetPacket::Ip(p)) = re {
             echo_ok = reply_is_echo_from_own(&p);
-            if mode & 2 != 0 {
+            if dispatch {
                 sent_ok = iface.inner.dispatch_ip(gtx::GTx, PacketMeta::default(), p, &mut iface.fragmenter).is_ok();
             }
         }
-        kani::cover!(r2_arp && !claims_peer, "free ARP frame was a valid request from a new sender: reply produced");
-        kani::cover!(if prefill == 7 { evicted } else { r2_arp && claims_peer && peer_hw != Some(PEER_MAC) }, "full cache: the oldest entry evicted by the free ARP frame / otherwise: the frame claimed the peer's address for another hardware address");
-        kani::cover!(if mode & 1 != 0 { r3_some && proto == 6 } else { true }, "protocol unreachable sent for frame 3");
+        kani::cover!(ra_arp && !claims_peer, "free ARP frame was a valid request from a new sender: reply produced");
+        kani::cover!(if prefill == 5 { evicted } else { ra_arp && claims_peer && peer_hw.is_some() && peer_hw != Some(PEER_MAC) }, "full cache: the oldest entry evicted by the free ARP frame / otherwise: the frame claimed the peer's address for another hardware address");
+        kani::cover!(if with_ip { ri_some && proto == 6 && !got_i } else { peer_hw == Some(PEER_MAC) }, "with frame I: protocol unreachable sent for it / without: the peer's entry is intact");
         crate::vassert!(echo_ok, "prop:c03_echo_request_answered_after_arbitrary_frames");
-        if mode & 2 == 0 {
+        if !dispatch {
+            // (the frame dispatch_ip makes of the reply and of the cache's answer for the requester - asserted above - is
+            // C16's subject: iface_neighbor.rs, dispatch_ip_step)
             return;
         }
         let tx = gtx::captured();
-        crate::vassert!(sent_ok && tx.frames == 1 && tx.len0 == 46, "prop:c03_echo_reply_handed_to_the_device");
+        crate::vassert!(tx.frames == 1, "prop:c03_one_frame_handed_to_the_device");
         let b = &tx.buf0;
+        crate::vassert!(b[6] == 0x02 && b[7] == 0 && b[8] == 0 && b[9] == 0 && b[10] == 0 && b[11] == 1, "prop:c03_frame_from_own_hardware_address");
         if let Some(hw) = peer_hw {
+            crate::vassert!(sent_ok && tx.len0 == 46, "prop:c03_echo_reply_handed_to_the_device");
             crate::vassert!(b[0] == hw[0] && b[1] == hw[1] && b[2] == hw[2] && b[3] == hw[3] && b[4] == hw[4] && b[5] == hw[5], "prop:c03_echo_reply_to_the_hardware_address_learned_for_the_requester");
+            crate::vassert!(b[12] == 0x08 && b[13] == 0x00, "prop:c03_echo_reply_frame_header");
+            crate::vassert!(b[14] == 0x45 && b[23] == 1 && b[26] == 192 && b[27] == 168 && b[28] == 1 && b[29] == 1 && b[30] == 192 && b[31] == 168 && b[32] == 1 && b[33] == 2, "prop:c03_echo_reply_ip_header");
+            crate::vassert!(b[34] == 0 && b[35] == 0 && b[38] == (ident >> 8) as u8 && b[39] == ident as u8 && b[40] == (seq >> 8) as u8 && b[41] == seq as u8, "prop:c03_echo_reply_echoes_ident_and_sequence_number");
+        } else {
+            // requester not resolved: the reply is dropped in favour of an ARP request for it
+            crate::vassert!(!sent_ok && tx.len0 == 42, "prop:c03_unresolved_requester_asked_for_by_arp");
+            crate::vassert!(b[0] == 0xff && b[5] == 0xff && b[12] == 0x08 && b[13] == 0x06 && b[20] == 0 && b[21] == 1, "prop:c03_unresolved_requester_asked_for_by_arp");
+            crate::vassert!(b[28] == 192 && b[29] == 168 && b[30] == 1 && b[31] == 1 && b[38] == 192 && b[39] == 168 && b[40] == 1 && b[41] == 2, "prop:c03_unresolved_requester_asked_for_by_arp");
         }
-        crate::vassert!(b[6] == 0x02 && b[11] == 1 && b[12] == 0x08 && b[13] == 0x00, "prop:c03_echo_reply_frame_header");
-        crate::vassert!(b[14] == 0x45 && b[23] == 1 && b[26] == 192 && b[27] == 168 && b[28] == 1 && b[29] == 1 && b[30] == 192 && b[31] == 168 && b[32] == 1 && b[33] == 2, "prop:c03_echo_reply_ip_header");
-        crate::vassert!(b[34] == 0 && b[35] == 0 && b[38] == (ident >> 8) as u8 && b[39] == ident as u8 && b[40] == (seq >> 8) as u8 && b[41] == seq as u8, "prop:c03_echo_reply_echoes_ident_and_sequence_number");
     }
 
-    // @harness props=C03 cfg=KE4u tier=q to=1800 mem=12 unwind=7 opts=nomem covers=3 funcs=InterfaceInner::process_ethernet;InterfaceInner::process_arp;ArpRepr::parse;neighbor::Cache::fill;InterfaceInner::process_ipv4;InterfaceInner::process_udp;InterfaceInner::process_icmpv4;InterfaceInner::dispatch_ip;InterfaceInner::lookup_hardware_addr bounds=Ethernet_medium,_192.168.1.1/24,_one_bound_UDP_socket,_concrete_instant,_neighbor_cache_of_3_entries_initially_EMPTY;_frame_1:_ARP_request_from_192.168.1.2;_frame_2:_ARP_with_all_28_octets_free,_any_source_MAC,_to_broadcast_or_own_MAC;_frame_3:_IPv4_to_the_own_address_with_any_protocol_and_source,_12_free_upper-layer_octets;_frame_4:_echo_request_from_192.168.1.2,_reply_emitted_through_dispatch_ip
+    // @harness props=C03 cfg=KE4u tier=q to=1800 mem=12 unwind=7 opts=nomem covers=3 funcs=InterfaceInner::process_ethernet;InterfaceInner::process_arp;ArpRepr::parse;neighbor::Cache::fill;InterfaceInner::process_ipv4;InterfaceInner::process_icmpv4;InterfaceInner::dispatch_ip;InterfaceInner::lookup_hardware_addr bounds=Ethernet_medium,_192.168.1.1/24,_one_bound_UDP_socket,_concrete_instant,_neighbor_cache_of_6_entries_initially_empty;_frame_1:_ARP_request_from_192.168.1.2;_frame_2:_ARP_with_all_28_octets_free,_any_source_MAC,_to_broadcast_or_own_MAC;_frame_3:_echo_request_from_192.168.1.2,_reply_emitted_through_dispatch_ip_to_the_hardware_address_learned;_no_free_IPv4_frame_(out_of_memory_with_one,_see_seq4_eth_arp_ip_then_echo)
+    #[cfg(all(feature = "proto-ipv4", feature = "medium-ethernet", feature = "socket-udp", not(feature = "medium-ip")))]
+    #[kani::proof]
+    pub(crate) fn seq4_eth_resolved_arp_then_echo() {
+        eth_seq_case(0, true, false, true);
+    }
+
+    // @harness props=C03 cfg=KE4u tier=q to=1800 mem=12 unwind=7 opts=nomem covers=3 funcs=InterfaceInner::process_ethernet;InterfaceInner::process_arp;ArpRepr::parse;neighbor::Cache::fill;InterfaceInner::process_ipv4;InterfaceInner::process_icmpv4;InterfaceInner::dispatch_ip;InterfaceInner::lookup_hardware_addr bounds=as_seq4_eth_resolved_arp_then_echo_with_a_neighbor_cache_that_is_FULL_after_frame_1_(five_older_concrete_entries_for_192.168.1.10-.14),_so_that_a_new_sender_in_frame_2_evicts_the_oldest_entry
+    #[cfg(all(feature = "proto-ipv4", feature = "medium-ethernet", feature = "socket-udp", not(feature = "medium-ip")))]
+    #[kani::proof]
+    pub(crate) fn seq4_eth_resolved_arp_evict_then_echo() {
+        eth_seq_case(5, true, false, false);
+    }
+
+    // @harness props=C03 cfg=KE4u tier=q to=1800 mem=12 unwind=7 opts=nomem covers=3 funcs=InterfaceInner::process_ethernet;InterfaceInner::process_arp;ArpRepr::parse;neighbor::Cache::fill;InterfaceInner::process_ipv4;InterfaceInner::process_udp;InterfaceInner::process_icmpv4;InterfaceInner::icmpv4_reply;InterfaceInner::dispatch_ip;InterfaceInner::lookup_hardware_addr;InterfaceInner::dispatch_ethernet bounds=Ethernet_medium,_192.168.1.1/24,_one_bound_UDP_socket,_concrete_instant,_neighbor_cache_of_6_entries_initially_empty;_frame_1:_ARP_with_all_28_octets_free,_any_source_MAC,_to_broadcast_or_own_MAC;_frame_2:_IPv4_to_the_own_address_with_any_protocol,_source_and_source_MAC,_12_free_upper-layer_octets;_frame_3:_echo_request_from_192.168.1.2_(not_resolved_unless_frame_1_claimed_that_address):_dispatch_ip_emits_the_reply_or_an_ARP_request
     #[cfg(all(feature = "proto-ipv4", feature = "medium-ethernet", feature = "socket-udp", not(feature = "medium-ip")))]
     #[kani::proof]
     pub(crate) fn seq4_eth_arp_ip_then_echo() {
-        eth_seq_case(0, 15);
+        eth_seq_case(0, false, true, false);
     }
 
-    // @harness props=C03 cfg=KE4u tier=q to=1800 mem=12 unwind=7 opts=nomem covers=3 funcs=InterfaceInner::process_ethernet;InterfaceInner::process_arp;ArpRepr::parse;neighbor::Cache::fill;InterfaceInner::process_ipv4;InterfaceInner::process_udp;InterfaceInner::process_icmpv4;InterfaceInner::dispatch_ip;InterfaceInner::lookup_hardware_addr bounds=as_seq4_eth_arp_ip_then_echo_with_a_neighbor_cache_that_is_FULL_after_frame_1:_two_older_concrete_entries_for_192.168.1.10/.11,_so_that_a_new_sender_in_frame_2_evicts_the_oldest
-    #[cfg(all(feature = "proto-ipv4", feature = "medium-ethernet", feature = "socket-udp", not(feature = "medium-ip")))]
-    #[kani::proof]
-    pub(crate) fn seq4_eth_arp_evict_ip_then_echo() {
-        eth_seq_case(7, 15);
+    // ------------------------------------------------------------------ IPv6, raw-IP medium (KI6u, KI6i, KI6t)
+    /// own addresses: fe80::1/64 and 2001:db8::1/64
+    const LL6: [u8; 16] = [0xfe, 0x80, 0, 0, 0, 0, 0, 0, 0, 0, 0, 0, 0, 0, 0, 1];
+    const GL6: [u8; 16] = [0x20, 0x01, 0x0d, 0xb8, 0, 0, 0, 0, 0, 0, 0, 0, 0, 0, 0, 1];
+    const PEER6: [u8; 16] = [0x20, 0x01, 0x0d, 0xb8, 0, 0, 0, 0, 0, 0, 0, 0, 0, 0, 0, 2];
+    const ALL_NODES6: [u8; 16] = [0xff, 0x02, 0, 0, 0, 0, 0, 0, 0, 0, 0, 0, 0, 0, 0, 1];
+
+    fn ipv6_header(b: &mut [u8], payload_len: usize, nh: u8, hop: u8, src: &[u8; 16], dst: &[u8; 16]) {
+        b[0] = 0x60;
+        b[1] = 0;
+        b[2] = 0;
+        b[3] = 0;
+        put16(b, 4, payload_len as u16);
+        b[6] = nh;
+        b[7] = hop;
+        let mut i = 0;
+        while i < 16 {
+            b[8 + i] = src[i];
+            b[24 + i] = dst[i];
+            i += 1;
+        }
+    }
+    /// source 2001:db8::xx or fe80::xx (last octet free), destination the global own address or all-nodes
+    fn any_src6() -> [u8; 16] {
+        let mut a = if kani::any() { PEER6 } else { LL6 };
+        a[15] = kani::any();
+        a
+    }
+    fn any_dst6() -> [u8; 16] {
+        if kani::any() { GL6 } else { ALL_NODES6 }
+    }
+    macro_rules! iface6 {
+        ($iface:ident) => {
+            let mut dev = CapDev::<96>::new(Medium::Ip, 1500, ChecksumCapabilities::ignored());
+            let mut $iface = Interface::new(Config::new(HardwareAddress::Ip), &mut dev, Instant::from_micros(100_000_000));
+            $iface.update_ip_addrs(|a| {
+                a.push(IpCidr::new(IpAddress::Ipv6(Ipv6Address::from(LL6)), 64)).unwrap();
+                a.push(IpCidr::new(IpAddress::Ipv6(Ipv6Address::from(GL6)), 64)).unwrap();
+            });
+        };
+    }
+    /// well-formed ICMPv6 echo request from 2001:db8::2 to 2001:db8::1 answered by an echo reply from 2001:db8::1
+    #[cfg(all(feature = "proto-ipv6", feature = "medium-ip"))]
+    fn echo6_answered(iface: &mut Interface, sockets: &mut SocketSet) -> bool {
+        let mut e = [0u8; 52];
+        ipv6_header(&mut e, 12, 58, 64, &PEER6, &GL6);
+        e[40] = 128;
+        put16(&mut e, 44, kani::any());
+        put16(&mut e, 46, kani::any());
+        let reply = iface.inner.process_ip(sockets, PacketMeta::default(), &e[..], &mut iface.fragments);
+        match &reply {
+            Some(p) => {
+                let src_ok = match p.ip_repr() {
+                    IpRepr::Ipv6(r) => r.src_addr.octets() == GL6 && r.dst_addr.octets() == PEER6,
+                    #[allow(unreachable_patterns)]
+                    _ => false,
+                };
+                src_ok && matches!(p.payload(), IpPayload::Icmpv6(Icmpv6Repr::EchoReply { .. }))
+            }
+            None => false,
+        }
     }
 
-    // @harness props=C03 cfg=KE4u tier=t to=1200 mem=12 unwind=7 opts=nomem covers=3 bounds=experiment
-    #[cfg(all(feature = "proto-ipv4", feature = "medium-ethernet", feature = "socket-udp", not(feature = "medium-ip")))]
+    // UDP socket: two datagrams with free UDP header and payload, then the ICMPv6 echo request.
+    // @harness props=C03 cfg=KI6u tier=q to=1800 mem=12 unwind=18 opts=nomem covers=2 funcs=InterfaceInner::process_ip;InterfaceInner::process_ipv6;InterfaceInner::process_nxt_hdr;InterfaceInner::process_udp;udp::Socket::process;InterfaceInner::process_icmpv6;InterfaceInner::icmpv6_reply bounds=raw-IP_medium,_own_fe80::1_and_2001:db8::1,_one_bound_UDP_socket_(2_slots,_16-byte_ring);_frames_1_and_2:_IPv6_header_(next_header_17,_source_2001:db8::xx_or_fe80::xx_with_free_last_octet,_destination_2001:db8::1_or_ff02::1),_then_12_free_octets_(ports,_length,_checksum,_payload);_frame_3:_echo_request;_concrete_instant
+    #[cfg(all(feature = "proto-ipv6", feature = "medium-ip", feature = "socket-udp"))]
     #[kani::proof]
-    pub(crate) fn x_eth_e1() {
-        eth_seq_case(0, 9);
+    pub(crate) fn seq6_udp_two_frames_then_echo() {
+        iface6!(iface);
+        let mut urm = [udp::PacketMetadata::EMPTY; 2];
+        let mut urp = [0u8; 16];
+        let mut utm = [udp::PacketMetadata::EMPTY; 2];
+        let mut utp = [0u8; 16];
+        let mut usock = udp::Socket::new(udp::PacketBuffer::new(&mut urm[..], &mut urp[..]), udp::PacketBuffer::new(&mut utm[..], &mut utp[..]));
+        usock.bind(53).unwrap();
+        let mut storage = [SocketStorage::EMPTY];
+        let mut sockets = SocketSet::new(&mut storage[..]);
+        let uh = sockets.add(usock);
+        let mut a: [u8; 52] = kani::any();
+        ipv6_header(&mut a, 12, 17, 64, &any_src6(), &any_dst6());
+        let r1 = iface.inner.process_ip(&mut sockets, PacketMeta::default(), &a[..], &mut iface.fragments).is_some();
+        let got1 = sockets.get::<udp::Socket>(uh).can_recv();
+        let mut b: [u8; 52] = kani::any();
+        ipv6_header(&mut b, 12, 17, 64, &any_src6(), &any_dst6());
+        let r2 = iface.inner.process_ip(&mut sockets, PacketMeta::default(), &b[..], &mut iface.fragments).is_some();
+        crate::vassert!(echo6_answered(&mut iface, &mut sockets), "prop:c03_echo_request_answered_after_arbitrary_frames");
+        let us = sockets.get_mut::<udp::Socket>(uh);
+        let d1 = us.recv().is_ok();
+        let d2 = us.recv().is_ok();
+        kani::cover!(got1 && d1 && d2, "both datagrams delivered to the socket");
+        kani::cover!(got1 && r2, "first datagram delivered, second answered with an ICMPv6 error");
     }
-    // @harness props=C03 cfg=KE4u tier=t to=1200 mem=12 unwind=7 opts=nomem covers=3 bounds=experiment
-    #[cfg(all(feature = "proto-ipv4", feature = "medium-ethernet", feature = "socket-udp", not(feature = "medium-ip")))]
+
+    // Hop-by-hop options header (8 octets: 6 free option octets) in front of a free UDP datagram, then a plain free UDP
+    // datagram, then the echo request.  (Two frames with a hop-by-hop header of free length: symbolic execution did not
+    // finish within an hour - the loop over the parsed options, a heapless Vec, is unrolled to the unwinding bound that
+    // IPv6 address comparisons need (17), and every iteration contains two ICMPv6 error paths with source address selection.)
+    // @harness props=C03 cfg=KI6u tier=q to=900 mem=12 unwind=18 opts=nomem covers=2 funcs=InterfaceInner::process_ip;InterfaceInner::process_ipv6;InterfaceInner::process_hopbyhop;Ipv6ExtHeaderRepr::parse;Ipv6HopByHopRepr::parse;Ipv6OptionsIterator::next;InterfaceInner::process_udp;InterfaceInner::icmpv6_reply bounds=raw-IP_medium,_own_fe80::1_and_2001:db8::1,_one_bound_UDP_socket;_frame_1:_IPv6_header_(next_header_0,_source_as_in_seq6_udp_two_frames_then_echo,_destination_2001:db8::1_or_ff02::1),_then_24_octets:_next_header_17,_extension_length_0,_6_free_option_octets,_16_free_octets_of_UDP_header_and_payload;_frame_2:_UDP_datagram_with_12_free_octets;_frame_3:_echo_request;_concrete_instant
+    #[cfg(all(feature = "proto-ipv6", feature = "medium-ip", feature = "socket-udp"))]
     #[kani::proof]
-    pub(crate) fn x_eth_e2() {
-        eth_seq_case(0, 1);
+    pub(crate) fn seq6_hbh_udp_then_echo() {
+        iface6!(iface);
+        let mut urm = [udp::PacketMetadata::EMPTY; 2];
+        let mut urp = [0u8; 16];
+        let mut utm = [udp::PacketMetadata::EMPTY; 2];
+        let mut utp = [0u8; 16];
+        let mut usock = udp::Socket::new(udp::PacketBuffer::new(&mut urm[..], &mut urp[..]), udp::PacketBuffer::new(&mut utm[..], &mut utp[..]));
+        usock.bind(53).unwrap();
+        let mut storage = [SocketStorage::EMPTY];
+        let mut sockets = SocketSet::new(&mut storage[..]);
+        let uh = sockets.add(usock);
+        let mut a: [u8; 64] = kani::any();
+        ipv6_header(&mut a, 24, 0, 64, &any_src6(), &any_dst6());
+        a[40] = 17;
+        a[41] = 0;
+        let r1 = iface.inner.process_ip(&mut sockets, PacketMeta::default(), &a[..], &mut iface.fragments).is_some();
+        let got1 = sockets.get::<udp::Socket>(uh).can_recv();
+        let mut b: [u8; 52] = kani::any();
+        ipv6_header(&mut b, 12, 17, 64, &any_src6(), &any_dst6());
+        let r2 = iface.inner.process_ip(&mut sockets, PacketMeta::default(), &b[..], &mut iface.fragments).is_some();
+        crate::vassert!(echo6_answered(&mut iface, &mut sockets), "prop:c03_echo_request_answered_after_arbitrary_frames");
+        kani::cover!(got1 && a[42] == 1 && a[43] == 4, "datagram behind a PadN option delivered");
+        kani::cover!(!got1 && r1 && a[42] & 0xc0 == 0x80, "unrecognised option of class 10 answered with a parameter problem");
+    }
+
+    // ---- ICMPv6 (KI6i): one concrete type octet per frame (a symbolic type explores every message parser: out of memory)
+    macro_rules! icmp6_env {
+        ($iface:ident, $sockets:ident, $ih:ident) => {
+            iface6!($iface);
+            let mut irm = [icmp::PacketMetadata::EMPTY; 2];
+            let mut irp = [0u8; 64];
+            let mut itm = [icmp::PacketMetadata::EMPTY; 1];
+            let mut itp = [0u8; 8];
+            let mut isock = icmp::Socket::new(icmp::PacketBuffer::new(&mut irm[..], &mut irp[..]), icmp::PacketBuffer::new(&mut itm[..], &mut itp[..]));
+            isock.bind(icmp::Endpoint::Udp(IpListenEndpoint { addr: None, port: 53 })).unwrap();
+            let mut storage = [SocketStorage::EMPTY];
+            let mut $sockets = SocketSet::new(&mut storage[..]);
+            let $ih = $sockets.add(isock);
+        };
+    }
+
+    /// two ICMPv6 messages of types `t1`, `t2` with N1 / N2 octets of ICMPv6 (type concrete, all other octets free),
+    /// hop limit `hop`, then the echo request; returns (reply to frame 1, reply to frame 2, socket has a message)
+    #[cfg(all(feature = "proto-ipv6", feature = "medium-ip", feature = "socket-icmp"))]
+    fn icmp6_seq_case<const N1: usize, const N2: usize>(t1: u8, t2: u8, hop: u8, q1: bool) -> (bool, bool, bool) {
+        icmp6_env!(iface, sockets, ih);
+        let mut a = [0u8; 104];
+        let pa: [u8; N1] = kani::any();
+        a[40..40 + N1].copy_from_slice(&pa);
+        ipv6_header(&mut a, N1, 58, hop, &any_src6(), &any_dst6());
+        a[40] = t1;
+        if q1 {
+            // quoted packet of an ICMPv6 error: version nibble 6 and a payload length that the quote can hold make it parse
+            a[48] = 0x60;
+        }
+        let r1 = iface.inner.process_ip(&mut sockets, PacketMeta::default(), &a[..40 + N1], &mut iface.fragments).is_some();
+        let got1 = sockets.get::<icmp::Socket>(ih).can_recv();
+        let mut b = [0u8; 104];
+        let pb: [u8; N2] = kani::any();
+        b[40..40 + N2].copy_from_slice(&pb);
+        ipv6_header(&mut b, N2, 58, hop, &any_src6(), &any_dst6());
+        b[40] = t2;
+        let r2 = iface.inner.process_ip(&mut sockets, PacketMeta::default(), &b[..40 + N2], &mut iface.fragments).is_some();
+        crate::vassert!(!r1 && !r2, "prop:c03_icmpv6_errors_and_control_messages_on_raw_ip_never_answered");
+        crate::vassert!(echo6_answered(&mut iface, &mut sockets), "prop:c03_echo_request_answered_after_arbitrary_frames");
+        (r1, r2, got1)
+    }
+
+    // @harness props=C03 cfg=KI6i tier=q to=1500 mem=12 unwind=18 opts=nomem covers=2 funcs=InterfaceInner::process_ip;InterfaceInner::process_ipv6;InterfaceInner::process_icmpv6;Icmpv6Repr::parse;icmp::Socket::accepts_v6;icmp::Socket::process_v6;InterfaceInner::icmpv6_reply bounds=raw-IP_medium,_own_fe80::1_and_2001:db8::1,_one_ICMP_socket_bound_to_UDP_port_53_(64-byte_receive_ring);_frame_1:_ICMPv6_destination_unreachable_(type_1)_of_56_octets:_code,_checksum,_unused_word,_quoted_IPv6_header_(first_octet_0x60)_and_8_quoted_octets_free;_frame_2:_time_exceeded_(type_3)_of_56_free_octets;_source_2001:db8::xx_or_fe80::xx,_destination_2001:db8::1_or_ff02::1,_hop_limit_64;_frame_3:_echo_request
+    #[cfg(all(feature = "proto-ipv6", feature = "medium-ip", feature = "socket-icmp"))]
+    #[kani::proof]
+    pub(crate) fn seq6_icmp_errors_then_echo() {
+        let (_r1, _r2, got1) = icmp6_seq_case::<56, 56>(1, 3, 64, true);
+        kani::cover!(got1, "destination unreachable quoting a datagram from port 53 delivered to the socket");
+        kani::cover!(!got1, "first message not delivered");
+    }
+
+    // @harness props=C03 cfg=KI6i tier=q to=1500 mem=12 unwind=18 opts=nomem covers=1 funcs=InterfaceInner::process_ip;InterfaceInner::process_ipv6;InterfaceInner::process_icmpv6;Icmpv6Repr::parse;NdiscRepr::parse;NdiscOptionRepr::parse bounds=raw-IP_medium_(NDISC_is_parsed,_not_acted_upon),_own_fe80::1_and_2001:db8::1,_one_ICMP_socket;_frame_1:_neighbor_solicitation_(type_135)_of_32_octets_(code,_checksum,_reserved,_target,_one_8-octet_option_free);_frame_2:_router_advertisement_(type_134)_of_48_octets_(16_header_octets_and_32_option_octets_free);_hop_limit_255;_frame_3:_echo_request
+    #[cfg(all(feature = "proto-ipv6", feature = "medium-ip", feature = "socket-icmp"))]
+    #[kani::proof]
+    pub(crate) fn seq6_ndisc_then_echo() {
+        let (_r1, _r2, got1) = icmp6_seq_case::<32, 48>(135, 134, 255, false);
+        kani::cover!(!got1, "NDISC messages are not delivered to a socket bound to a UDP port");
+    }
+
+    // @harness props=C03 cfg=KI6i tier=q to=1500 mem=12 unwind=18 opts=nomem covers=1 funcs=InterfaceInner::process_ip;InterfaceInner::process_ipv6;InterfaceInner::process_icmpv6;Icmpv6Repr::parse;MldRepr::parse;InterfaceInner::process_mldv2 bounds=raw-IP_medium,_own_fe80::1_and_2001:db8::1,_one_ICMP_socket;_frame_1:_MLD_query_(type_130)_of_44_octets_(all_but_the_type_free:_max_response,_group,_flags,_QQIC,_source_count,_one_source);_frame_2:_MLDv2_report_(type_143)_of_28_free_octets;_hop_limit_1;_frame_3:_echo_request
+    #[cfg(all(feature = "proto-ipv6", feature = "medium-ip", feature = "socket-icmp"))]
+    #[kani::proof]
+    pub(crate) fn seq6_mld_then_echo() {
+        let (_r1, _r2, got1) = icmp6_seq_case::<44, 28>(130, 143, 1, false);
+        kani::cover!(!got1, "MLD messages are not delivered to a socket bound to a UDP port");
+    }
+
+    // ------------------------------------------------------------------ IEEE 802.15.4 / 6LoWPAN (KLi)
+    /// own extended address 02:00:00:00:00:00:00:01 (fe80::1), peer 02:..:02 (fe80::2), PAN 0xabcd
+    const HW154: [u8; 8] = [0x02, 0, 0, 0, 0, 0, 0, 1];
+    const PEER154: [u8; 8] = [0x02, 0, 0, 0, 0, 0, 0, 2];
+    /// 802.15.4 data frame header as smoltcp itself emits it: frame control 0x41 0xcc (data, PAN ID compression, extended
+    /// addresses, version 2003), sequence number, destination PAN, destination and source address (little endian)
+    const MAC154: usize = 21;
+    fn mac154(f: &mut [u8], seq: u8) {
+        f[0] = 0x41;
+        f[1] = 0xcc;
+        f[2] = seq;
+        f[3] = 0xcd;
+        f[4] = 0xab;
+        let mut i = 0;
+        while i < 8 {
+            f[5 + i] = HW154[7 - i];
+            f[13 + i] = PEER154[7 - i];
+            i += 1;
+        }
+    }
+
+    /// FRAG1 (datagram size < 256 and tag free, IPHC 7a 33 = everything elided, addresses from the link layer, next header
+    /// in-line 58, then the 8-octet ICMPv6 echo request header: 48 octets uncompressed), a FRAGN (size, tag and `offset`
+    /// free or the concrete offset 6, 8 free data octets), then an unfragmented IPHC-compressed echo request from fe80::2
+    /// -> echo reply from fe80::1.
+    #[cfg(all(feature = "medium-ieee802154", feature = "proto-sixlowpan-fragmentation", feature = "socket-icmp"))]
+    fn lowpan_seq_case(with_frag1: bool, with_fragn: bool, free_offset: bool) {
+        let mut dev = CapDev::<64>::new(Medium::Ieee802154, 125, ChecksumCapabilities::ignored());
+        let mut cfg = Config::new(HardwareAddress::Ieee802154(Ieee802154Address::Extended(HW154)));
+        cfg.pan_id = Some(Ieee802154Pan(0xabcd));
+        let mut iface = Interface::new(cfg, &mut dev, Instant::from_micros(100_000_000));
+        iface.update_ip_addrs(|a| {
+            a.push(IpCidr::new(IpAddress::Ipv6(Ipv6Address::from(LL6)), 64)).unwrap();
+        });
+        let mut irm = [icmp::PacketMetadata::EMPTY; 1];
+        let mut irp = [0u8; 16];
+        let mut itm = [icmp::PacketMetadata::EMPTY; 1];
+        let mut itp = [0u8; 16];
+        let mut isock = icmp::Socket::new(icmp::PacketBuffer::new(&mut irm[..], &mut irp[..]), icmp::PacketBuffer::new(&mut itm[..], &mut itp[..]));
+        isock.bind(icmp::Endpoint::Ident(0x1234)).unwrap();
+        let mut storage = [SocketStorage::EMPTY];
+        let mut sockets = SocketSet::new(&mut storage[..]);
+        let ih = sockets.add(isock);
+
+        let size1: u8 = kani::any();
+        let tag1: [u8; 2] = kani::any();
+        let mut r1 = false;
+        if with_frag1 {
+            let mut f = [0u8; MAC154 + 15];
+            mac154(&mut f, 1);
+            let p = [0xc0, size1, tag1[0], tag1[1], 0x7a, 0x33, 0x3a, 128, 0, 0, 0, 0x12, 0x34, 0, 1];
+            f[MAC154..].copy_from_slice(&p);
+            r1 = iface.inner.process_ieee802154(&mut sockets, PacketMeta::default(), &f[..], &mut iface.fragments).is_some();
+        }
+        let sizen: u8 = kani::any();
+        let tagn: [u8; 2] = kani::any();
+        let offset: u8 = if free_offset { kani::any() } else { 6 };
+        let mut rn = false;
+        if with_fragn {
+            let mut f = [0u8; MAC154 + 13];
+            mac154(&mut f, 2);
+            let d: [u8; 8] = kani::any();
+            let p = [0xe0, sizen, tagn[0], tagn[1], offset, d[0], d[1], d[2], d[3], d[4], d[5], d[6], d[7]];
+            f[MAC154..].copy_from_slice(&p);
+            rn = iface.inner.process_ieee802154(&mut sockets, PacketMeta::default(), &f[..], &mut iface.fragments).is_some();
+        }
+        // unfragmented echo request: IPHC 7a 33, next header 58 in-line, ICMPv6 echo request with 4 data octets
+        let mut e = [0u8; MAC154 + 15];
+        mac154(&mut e, 3);
+        let ident: [u8; 2] = kani::any();
+        let seqn: [u8; 2] = kani::any();
+        let p = [0x7a, 0x33, 0x3a, 128, 0, 0, 0, ident[0], ident[1], seqn[0], seqn[1], 1, 2, 3, 4];
+        e[MAC154..].copy_from_slice(&p);
+        let reply = iface.inner.process_ieee802154(&mut sockets, PacketMeta::default(), &e[..], &mut iface.fragments);
+        let ok = match &reply {
+            Some(pk) => {
+                let addr_ok = match pk.ip_repr() {
+                    IpRepr::Ipv6(r) => r.src_addr.octets() == LL6 && r.dst_addr.octets()[15] == 2 && r.dst_addr.octets()[0] == 0xfe,
+                    #[allow(unreachable_patterns)]
+                    _ => false,
+                };
+                addr_ok && matches!(pk.payload(), IpPayload::Icmpv6(Icmpv6Repr::EchoReply { ident: i, seq_no: q, data }) if *i == u16::from_be_bytes(ident) && *q == u16::from_be_bytes(seqn) && data.len() == 4)
+            }
+            None => false,
+        };
+        kani::cover!(if with_frag1 { r1 && size1 == 48 } else { true }, "FRAG1 that is its whole datagram (size 48) delivered and answered at once");
+        kani::cover!(if with_fragn && with_frag1 { !r1 && !rn && size1 == sizen && tag1 == tagn && size1 == 56 } else { !rn }, "FRAGN for the datagram FRAG1 started (same size and tag) / FRAGN stored or dropped");
+        crate::vassert!(ok, "prop:c03_echo_request_answered_after_arbitrary_frames");
+    }
+
+    // @harness props=C03 cfg=KLi tier=q to=1500 mem=12 unwind=12 opts=nomem,fs256 covers=2 funcs=InterfaceInner::process_ieee802154;Ieee802154Repr::parse;InterfaceInner::process_sixlowpan;InterfaceInner::process_sixlowpan_fragment;PacketAssemblerSet::get;PacketAssembler::add;InterfaceInner::sixlowpan_to_ipv6;InterfaceInner::process_ipv6;InterfaceInner::process_icmpv6 bounds=IEEE_802.15.4_medium,_extended_addresses,_PAN_0xabcd,_own_fe80::1,_one_ICMP_socket,_2_reassembly_slots_of_256_octets;_frame_1:_FRAG1_with_free_datagram_size_<256_and_free_tag,_IPHC_7a_33_+_ICMPv6_echo_header_(48_octets_uncompressed);_frame_2:_FRAGN_with_free_datagram_size_<256,_tag_and_8_data_octets,_offset_6;_frame_3:_unfragmented_IPHC_echo_request_from_fe80::2;_reply_packet_checked_(not_its_compression)
+    #[cfg(all(feature = "medium-ieee802154", feature = "proto-sixlowpan-fragmentation", feature = "socket-icmp"))]
+    #[kani::proof]
+    pub(crate) fn seq_lowpan_frag1_fragn_then_echo() {
+        lowpan_seq_case(true, true, false);
+    }
+
+    // @harness props=C03 cfg=KLi tier=q to=1500 mem=12 unwind=12 opts=nomem,fs256 covers=2 funcs=InterfaceInner::process_ieee802154;InterfaceInner::process_sixlowpan;InterfaceInner::process_sixlowpan_fragment;PacketAssemblerSet::get;PacketAssembler::add;InterfaceInner::process_ipv6;InterfaceInner::process_icmpv6 bounds=as_seq_lowpan_frag1_fragn_then_echo_without_frame_1:_FRAGN_with_free_datagram_size_<256,_tag,_OFFSET_and_8_data_octets_on_fresh_reassembly_slots,_then_the_echo_request
+    #[cfg(all(feature = "medium-ieee802154", feature = "proto-sixlowpan-fragmentation", feature = "socket-icmp"))]
+    #[kani::proof]
+    pub(crate) fn seq_lowpan_fragn_free_offset_then_echo() {
+        lowpan_seq_case(false, true, true);
+    }
+
+    // ------------------------------------------------------------------ DHCPv4 client on Ethernet (KDd)
+    /// total frame: Ethernet 14 + IPv4 20 + UDP 8 + DHCP (236 fixed + 4 magic cookie + options)
+    const DHCP_OPTS: usize = 21 + 4 + 1;
+    const DHCP_FRAME: usize = 14 + 20 + 8 + 240 + DHCP_OPTS;
+
+    /// a server message: BOOTP header with free op, htype, hlen, xid, yiaddr, siaddr and chaddr (other fixed fields,
+    /// sname and file zero), magic cookie, options of concrete shape {message type, server identifier, lease time,
+    /// subnet mask} with free values, then 4 free option octets (a free-form option list of this length is what
+    /// DhcpRepr::parse affords, see wire_views.rs) and the end option
+    #[cfg(all(feature = "proto-ipv4", feature = "medium-ethernet"))]
+    fn dhcp_frame(f: &mut [u8; DHCP_FRAME]) {
+        let hdr: [u8; 8] = kani::any();
+        let addrs: [u8; 8] = kani::any();
+        let ch: [u8; 6] = kani::any();
+        let ov: [u8; 17] = kani::any();
+        eth_header(&mut f[..], &[0xff; 6], &PEER_MAC, 0x0800);
+        ipv4_header(&mut f[14..], DHCP_FRAME - 14, 17, PEER_U32, 0xffff_ffff);
+        put16(&mut f[..], 34, 67);
+        put16(&mut f[..], 36, 68);
+        put16(&mut f[..], 38, (DHCP_FRAME - 34) as u16);
+        put16(&mut f[..], 40, 0);
+        let d = 42;
+        f[d] = hdr[0];
+        f[d + 1] = hdr[1];
+        f[d + 2] = hdr[2];
+        f[d + 4] = hdr[4];
+        f[d + 5] = hdr[5];
+        f[d + 6] = hdr[6];
+        f[d + 7] = hdr[7];
+        f[d + 16] = addrs[0];
+        f[d + 17] = addrs[1];
+        f[d + 18] = addrs[2];
+        f[d + 19] = addrs[3];
+        f[d + 20] = addrs[4];
+        f[d + 21] = addrs[5];
+        f[d + 22] = addrs[6];
+        f[d + 23] = addrs[7];
+        f[d + 28] = ch[0];
+        f[d + 29] = ch[1];
+        f[d + 30] = ch[2];
+        f[d + 31] = ch[3];
+        f[d + 32] = ch[4];
+        f[d + 33] = ch[5];
+        f[d + 236] = 99;
+        f[d + 237] = 130;
+        f[d + 238] = 83;
+        f[d + 239] = 99;
+        let o = d + 240;
+        f[o] = 53;
+        f[o + 1] = 1;
+        f[o + 2] = ov[0];
+        f[o + 3] = 54;
+        f[o + 4] = 4;
+        f[o + 5] = ov[1];
+        f[o + 6] = ov[2];
+        f[o + 7] = ov[3];
+        f[o + 8] = ov[4];
+        f[o + 9] = 51;
+        f[o + 10] = 4;
+        f[o + 11] = ov[5];
+        f[o + 12] = ov[6];
+        f[o + 13] = ov[7];
+        f[o + 14] = ov[8];
+        f[o + 15] = 1;
+        f[o + 16] = 4;
+        f[o + 17] = ov[9];
+        f[o + 18] = ov[10];
+        f[o + 19] = ov[11];
+        f[o + 20] = ov[12];
+        f[o + 21] = ov[13];
+        f[o + 22] = ov[14];
+        f[o + 23] = ov[15];
+        f[o + 24] = ov[16];
+        f[o + 25] = 255;
+    }
+
+    // @harness props=C03 cfg=KDd tier=q to=1800 mem=12 unwind=12 opts=nomem,fs320 covers=2 funcs=InterfaceInner::process_ethernet;InterfaceInner::process_ipv4;UdpRepr::parse;dhcpv4::Socket::process;DhcpPacket::new_checked;DhcpRepr::parse;dhcpv4::Socket::dispatch;InterfaceInner::process_icmpv4 bounds=Ethernet_medium,_static_address_192.168.1.1/24_plus_a_DHCPv4_client_socket_(default_settings)_whose_DISCOVER_was_taken_from_dispatch;_frames_1_and_2:_broadcast_UDP_67->68_from_192.168.1.2_carrying_a_BOOTP_header_with_free_op/htype/hlen/xid/yiaddr/siaddr/chaddr,_the_magic_cookie,_options_{53,54,51,1}_with_free_values,_4_free_option_octets,_end;_then_an_echo_request_(reply_packet_checked)_and,_10_s_later,_the_client's_next_message_taken_from_dispatch
+    #[cfg(all(feature = "proto-ipv4", feature = "medium-ethernet", feature = "socket-dhcpv4"))]
+    #[kani::proof]
+    pub(crate) fn seq4_dhcp_two_frames_then_echo() {
+        use crate::socket::dhcpv4;
+        let mut dev = CapDev::<64>::new(Medium::Ethernet, 1514, ChecksumCapabilities::ignored());
+        let now: i64 = 100_000_000;
+        let mut iface = Interface::new(Config::new(HardwareAddress::Ethernet(EthernetAddress(OWN_MAC))), &mut dev, Instant::from_micros(now));
+        iface.update_ip_addrs(|a| {
+            a.push(IpCidr::new(IpAddress::Ipv4(OWN), 24)).unwrap();
+        });
+        let mut storage = [SocketStorage::EMPTY];
+        let mut sockets = SocketSet::new(&mut storage[..]);
+        let dh = sockets.add(dhcpv4::Socket::new());
+        // the client's DISCOVER
+        let mut xid: u32 = 0;
+        let mut first_is_discover = false;
+        let _ = sockets.get_mut::<dhcpv4::Socket>(dh).dispatch(&mut iface.inner, |_cx, (_ip, _udp, d)| -> core::result::Result<(), ()> {
+            xid = d.transaction_id;
+            first_is_discover = d.message_type == DhcpMessageType::Discover;
+            Ok(())
+        });
+        crate::vassert!(first_is_discover, "prop:c03_dhcp_client_solicits");
+        // two server messages
+        let mut f1 = [0u8; DHCP_FRAME];
+        dhcp_frame(&mut f1);
+        let r1 = iface.inner.process_ethernet(&mut sockets, PacketMeta::default(), &f1[..], &mut iface.fragments).is_some();
+        let mut f2 = [0u8; DHCP_FRAME];
+        dhcp_frame(&mut f2);
+        let r2 = iface.inner.process_ethernet(&mut sockets, PacketMeta::default(), &f2[..], &mut iface.fragments).is_some();
+        crate::vassert!(!r1 && !r2, "prop:c03_dhcp_server_messages_not_answered_on_ingress");
+        // echo request from the peer (broadcast hardware destination: no neighbor entry needed to build the reply packet)
+        let mut fe = [0u8; 46];
+        eth_header(&mut fe, &OWN_MAC, &PEER_MAC, 0x0800);
+        ipv4_header(&mut fe[14..], 32, 1, PEER_U32, OWN_U32);
+        fe[34] = 8;
+        put16(&mut fe, 38, kani::any());
+        put16(&mut fe, 40, kani::any());
+        let re = iface.inner.process_ethernet(&mut sockets, PacketMeta::default(), &fe[..], &mut iface.fragments);
+        let echo_ok = match &re {
+            Some(EthernetPacket::Ip(p)) => reply_is_echo_from_own(p),
+            _ => false,
+        };
+        crate::vassert!(echo_ok, "prop:c03_echo_request_answered_after_arbitrary_frames");
+        // 10 s later (the default DISCOVER retry interval) the client says something again: DISCOVER, or REQUEST if one
+        // of the frames was an acceptable OFFER
+        iface.inner.now = Instant::from_micros(now + 10_000_000);
+        let mut said = 0u8;
+        let _ = sockets.get_mut::<dhcpv4::Socket>(dh).dispatch(&mut iface.inner, |_cx, (_ip, _udp, d)| -> core::result::Result<(), ()> {
+            said = if d.message_type == DhcpMessageType::Discover { 1 } else if d.message_type == DhcpMessageType::Request { 2 } else { 3 };
+            Ok(())
+        });
+        let xid1 = u32::from_be_bytes([f1[46], f1[47], f1[48], f1[49]]);
+        kani::cover!(said == 2 && xid1 == xid && f1[42 + 242] == 2, "frame 1 was an OFFER for the pending transaction: REQUEST sent");
+        kani::cover!(said == 1 && xid1 == xid && f1[42 + 242] == 2, "an OFFER with the right transaction id but not acceptable: DISCOVER repeated");
+        crate::vassert!(said == 1 || said == 2, "prop:c03_dhcp_client_still_transmits_after_arbitrary_server_messages");
     }
 }
